@@ -63,7 +63,7 @@ def _normalize_history(rnd, obj):
         obj.normalize()
 
 
-def leaf(rnd, d, normalized=False, allow=("normaldiag", "normalscalar", "normaldiagmatrix", "normalfull", "laplace", "uniform", "stdnormal", "himmelblau"),
+def _leaf(rnd, d, normalized=False, allow=("normaldiag", "normalscalar", "normaldiagmatrix", "normalfull", "laplace", "uniform", "stdnormal", "himmelblau"),
          bounds_p=0.35):
     D = _hm()
     cands = [k for k in allow if not (k == "stdnormal" and d != 1) and not (k == "himmelblau" and d != 2)]
@@ -121,7 +121,7 @@ def leaf(rnd, d, normalized=False, allow=("normaldiag", "normalscalar", "normald
                 {"kind": k, "mu": mu.ravel().tolist(), "cov": cov.tolist()}, d, k, normalizable=True, lb=lb, ub=ub)
 
 
-def tree(rnd, d, depth, normalized=False, for_generate=False):
+def _tree(rnd, d, depth, normalized=False, for_generate=False):
     """random expression of dimension d"""
     D = _hm()
     if depth <= 0 or rnd.random() < 0.35:
@@ -168,6 +168,45 @@ def tree(rnd, d, depth, normalized=False, for_generate=False):
         return Node(obj, f"logt {fhex(base)} {inner.proto} - -", {"kind": w, "base": base, "inner": inner.desc}, d, w, [inner],
                     has_kinks=inner.has_kinks, positive_only=True, generable=inner.generable)
     return leaf(rnd, d)
+
+
+HISTORY_P = 0.3
+
+
+def with_history(rnd, node):
+    """Before it is used, the object may already have a past that must be invisible: evaluations at other points,
+    pickle / deep-copy round trips (the copy replaces the object). Recorded in node.desc['history']."""
+    import copy
+    import pickle
+
+    if rnd.random() >= HISTORY_P:
+        return node
+    ops = [rnd.choice(["misfit", "gradient", "deepcopy", "pickle", "misfit"]) for _ in range(rnd.choice([1, 2, 3]))]
+    done = []
+    for op in ops:
+        try:
+            with np.errstate(all="ignore"):
+                if op == "misfit":
+                    node.obj.misfit(point(rnd, node, interior=rnd.random() < 0.7))
+                elif op == "gradient":
+                    node.obj.gradient(point(rnd, node))
+                elif op == "deepcopy":
+                    node.obj = copy.deepcopy(node.obj)
+                else:
+                    node.obj = pickle.loads(pickle.dumps(node.obj))
+            done.append(op)
+        except Exception as e:  # an evaluation that raises at this point raises without a history too; copies of unpicklable objects are skipped
+            done.append(f"{op}:raised {type(e).__name__}")
+    node.desc = dict(node.desc, history=done)
+    return node
+
+
+def leaf(rnd, d, *a, **k):
+    return with_history(rnd, _leaf(rnd, d, *a, **k))
+
+
+def tree(rnd, d, depth, *a, **k):
+    return with_history(rnd, _tree(rnd, d, depth, *a, **k))
 
 
 def point(rnd, node, interior=True):
